@@ -24,6 +24,7 @@ type c10Cfg struct {
 	Alpha   []int64 `json:"alphabet_ms,omitempty"` // a reduced timestamp alphabet (longer two-key sequences)
 	Block   bool  `json:"block_slow_consumer,omitempty"` // strategy block without timeout, window output buffer of 1, sink taking 20 ms per batch
 	NestedKey bool `json:"nested_path_key,omitempty"` // the grouping column is the nested path d.x (selected AS k)
+	Form      string `json:"timeout_form,omitempty"` // how the timeout is written: "" = '2000ms', "int" = 2 (seconds), "str-int" = '2', "s" = '2s'
 }
 
 func c10Opts(c c10Cfg, eager bool) detOpts {
@@ -52,6 +53,10 @@ func c10Configs(tier string) []c10Cfg {
 	}
 	out = append(out, c10Cfg{Timeout: 2000, OOOMs: 0, Keys: 2, MaxL: maxL - 1, Block: true})
 	out = append(out, c10Cfg{Timeout: 2000, OOOMs: 0, Keys: 2, MaxL: maxL - 1, NestedKey: true})
+	// the timeout written as a bare number of seconds, as a quoted number and with the unit s
+	for _, form := range []string{"int", "str-int", "s"} {
+		out = append(out, c10Cfg{Timeout: 2000, OOOMs: 0, Keys: 2, MaxL: maxL - 1, Form: form})
+	}
 	// two keys, four arrivals, out-of-order arrivals of one key inside the tolerance while the other key's session is open
 	out = append(out, c10Cfg{Timeout: 2000, OOOMs: 3000, Keys: 2, MaxL: 4, Alpha: []int64{12500, 15000, 16000, 17500}})
 	// present-day epoch, float64 timestamps (what a JSON decoder hands over); tolerance not a multiple of 4 ms
@@ -68,15 +73,27 @@ func (c c10Cfg) times() []int64 {
 	return c10Times
 }
 
+func (c c10Cfg) timeoutText() string {
+	switch c.Form {
+	case "int":
+		return fmt.Sprint(c.Timeout / 1000)
+	case "str-int":
+		return fmt.Sprintf("'%d'", c.Timeout/1000)
+	case "s":
+		return fmt.Sprintf("'%ds'", c.Timeout/1000)
+	}
+	return fmt.Sprintf("'%dms'", c.Timeout)
+}
+
 func c10SQL(c c10Cfg) string {
 	with := "TIMESTAMP='ts', TIMEUNIT='ms'"
 	if c.OOOMs > 0 {
 		with += fmt.Sprintf(", MAXOUTOFORDERNESS='%dms'", c.OOOMs)
 	}
 	if c.NestedKey {
-		return fmt.Sprintf("SELECT d.x AS k, count(*) AS c, collect(id) AS ids, window_start() AS ws, window_end() AS we FROM stream GROUP BY d.x, SessionWindow('%dms') WITH (%s)", c.Timeout, with)
+		return fmt.Sprintf("SELECT d.x AS k, count(*) AS c, collect(id) AS ids, window_start() AS ws, window_end() AS we FROM stream GROUP BY d.x, SessionWindow(%s) WITH (%s)", c.timeoutText(), with)
 	}
-	return fmt.Sprintf("SELECT k, count(*) AS c, collect(id) AS ids, window_start() AS ws, window_end() AS we FROM stream GROUP BY k, SessionWindow('%dms') WITH (%s)", c.Timeout, with)
+	return fmt.Sprintf("SELECT k, count(*) AS c, collect(id) AS ids, window_start() AS ws, window_end() AS we FROM stream GROUP BY k, SessionWindow(%s) WITH (%s)", c.timeoutText(), with)
 }
 
 type c10Delivery struct {
